@@ -230,9 +230,9 @@ def expand_brackets(s: str) -> str:
         if start == 0 or s[start - 1] != '*':
             s = s[0:start] + s[start + 1:p] + s[p + 1:]
         else:
-            # Looks for first number*(
+            # Looks for first number*( - it has to be the one for this bracket.
             m = BRACKET_RE.search(s)
-            if m:
+            if m and m.end() == start + 1:
                 factor = int(m.group('factor'))
                 matchstart = m.start('factor')
                 s = s[0:matchstart] + (factor - 1) * (s[start + 1:p] + ',') + s[start + 1:p] + s[p + 1:]
